@@ -9,6 +9,7 @@ func init() {
 	replayers["C11"] = replayC11
 	replayers["C17"] = replayC17
 	replayers["C10"] = replayC10
+	replayers["C20"] = replayC20
 }
 
 // ---------------------------------------------------------------------------
@@ -344,4 +345,74 @@ func TestVerifReplayC10(t *testing.T) {
 		return !passed && strings.Contains(out, "REPRODUCED"), b.String()
 	}
 	return false, "no replay template for this obligation\n"
+}
+
+// ---------------------------------------------------------------------------
+// C20: hook files.  The failing obligations relate what matchesCurrent /
+// Upgrade / Uninstall conclude to the WHOLE content of the hook file.  The
+// replay builds hook files of the classes the model distinguishes (length
+// below / above the read window, generated prefix, user text after it) and
+// runs the real Install/Upgrade/Uninstall on them.
+
+func replayC20(w *World, ob *Obligation, vc *VC) (bool, string) {
+	if !strings.Contains(ob.Func, "Hook") {
+		return false, "no replay template for this function\n"
+	}
+	test := `package lfs
+
+import (
+	"os"
+	"path/filepath"
+	"strings"
+	"testing"
+
+	"github.com/git-lfs/git-lfs/v3/config"
+)
+
+func TestVerifReplayC20(t *testing.T) {
+	cfg := config.NewFrom(config.Values{})
+	for _, hk := range LoadHooks("", cfg) {
+		gen := append([]string{hk.Contents}, hk.upgradeables...)
+		for gi, g := range gen {
+			for _, pad := range []int{0, 10, 700, 1024, 2000} {
+				for _, user := range []string{"", "rsync -a . backup:/srv/repo # my own hook line"} {
+					dir := t.TempDir()
+					h := NewStandardHook(hk.Type, dir, nil, cfg)
+					h.upgradeables = hk.upgradeables
+					content := g + "\n" + strings.Repeat("\n", pad) + user + "\n"
+					path := filepath.Join(dir, hk.Type)
+					if err := os.WriteFile(path, []byte(content), 0755); err != nil {
+						t.Fatal(err)
+					}
+					generated := user == ""
+					for _, op := range []string{"upgrade", "install", "uninstall"} {
+						os.WriteFile(path, []byte(content), 0755)
+						switch op {
+						case "upgrade":
+							h.Upgrade()
+						case "install":
+							h.Install(false)
+						case "uninstall":
+							h.Uninstall()
+						}
+						after, err := os.ReadFile(path)
+						changed := err != nil || string(after) != content
+						if changed && !generated {
+							t.Errorf("REPRODUCED: %s destroyed a %s hook that git-lfs did not generate (template %d, %d padding lines, %d bytes -> %d bytes, gone=%v)", op, hk.Type, gi, pad, len(content), len(after), err != nil)
+						}
+					}
+				}
+			}
+		}
+	}
+}
+`
+	out, passed, err := runOverlayTest(w.repoDir, "lfs", "zz_verif_replay_test.go", test, "TestVerifReplayC20")
+	if err != nil {
+		return false, "replay could not run: " + err.Error() + "\n"
+	}
+	if len(out) > 3000 {
+		out = out[:3000] + "\n...(truncated)\n"
+	}
+	return !passed && strings.Contains(out, "REPRODUCED"), out
 }
